@@ -539,7 +539,11 @@ class Parser:
             kind = next((k for p, k in kinds if s.startswith(p)), "imaginary" if s.endswith("j") else "decimal")
             if nxt.string not in self._AFTER_NUMBER or (number.string == "0" and kind != "decimal"):
                 self.raise_syntax_error_known_range(f"invalid {kind} literal", number, nxt)
-        return ast.literal_eval(number.string)
+        try:
+            return ast.literal_eval(number.string)
+        except SyntaxError as e:
+            # an integer literal beyond the digit limit: report it at the literal in the source
+            self.raise_syntax_error_known_location(e.msg, number)
 
     def pattern_string(self, node: ast.expr) -> ast.expr:
         """A string literal used as a pattern (or as a key of a mapping pattern): a path literal is a call, not a literal."""
